@@ -726,7 +726,7 @@ theorem occ_congr {emp emp' : π → Bool} {f : Fib Int π} (h : ∀ x ∈ f, em
   simp only at this
   rw [this]
 
-theorem revInner_eq (wemp : π → Bool) (f : Fib Int π) : revInner wemp f = (occ wemp f).reverse := by
+theorem revInner_eq (emp : π → Bool) (f : Fib Int π) : revInner emp f = (occ emp f).reverse := by
   unfold revInner occ stored
   rw [rangeLoop_none, List.filter_reverse, List.map_reverse]
 
@@ -741,47 +741,32 @@ theorem nf_filter_nonempty (emp : π → Bool) (k m : Int) (iv : Option (Int × 
   simp only [Function.comp, inSlice]
   cases emp x.2.2 <;> simp
 
-/-- the first test of `project`: there is an example coordinate to look at -/
-def noStop (emp : π → Bool) (f : Fib Int π) : Bool :=
-  !(!f.isEmpty && (f.filter (fun x => !emp x.2)).isEmpty)
-
-theorem project_unfold_rev (emp wemp : π → Bool) (mk : π) (cfg : Cfg) {k : Int} (hk : k < 0) (m : Int)
-    (iv : Option (Int × Int)) (os oe : Option Int) {f : Fib Int π} (hn : noStop emp f = true) :
-    project emp wemp mk cfg k m iv none os oe f =
-      .ok (lazyIter (fun x : Option Nat × π => emp x.2) os oe (ivLoop iv (transF k m (revInner wemp f)))) := by
+theorem project_unfold_rev (emp : π → Bool) (mk : π) (cfg : Cfg) {k : Int} (hk : k < 0) (m : Int)
+    (iv : Option (Int × Int)) (os oe : Option Int) (f : Fib Int π) :
+    project emp mk cfg k m iv none os oe f =
+      .ok (lazyIter (fun x : Option Nat × π => emp x.2) os oe (ivLoop iv (transF k m (revInner emp f)))) := by
   unfold project projectRaw
-  have h1 : (!f.isEmpty && (f.filter (fun x => !emp x.2)).isEmpty) = false := by
-    cases hX : (!f.isEmpty && (f.filter (fun x => !emp x.2)).isEmpty) with
-    | false => rfl
-    | true => unfold noStop at hn; rw [hX] at hn; cases hn
   have h2 : decide (k * 0 + m > k * 1 + m) = true := by
     simp only [decide_eq_true_eq]; omega
-  rw [h1]
-  simp only [Bool.false_eq_true, if_false, h2, if_true, Option.isSome_none]
+  simp only [h2, if_true, Option.isSome_none, Bool.false_eq_true, if_false]
   rfl
 
-theorem project_unfold_fwd (emp wemp : π → Bool) (mk : π) (cfg : Cfg) {k : Int} (hk : 0 < k) (m : Int)
-    (iv : Option (Int × Int)) (sp : Option Nat) (os oe : Option Int) {f : Fib Int π} (hn : noStop emp f = true)
+theorem project_unfold_fwd (emp : π → Bool) (mk : π) (cfg : Cfg) {k : Int} (hk : 0 < k) (m : Int)
+    (iv : Option (Int × Int)) (sp : Option Nat) (os oe : Option Int) {f : Fib Int π}
     (hok : projStartOk iv sp f = true) :
-    project emp wemp mk cfg k m iv sp os oe f =
+    project emp mk cfg k m iv sp os oe f =
       .ok (lazyIter (fun x : Option Nat × π => emp x.2) os oe (ivLoop iv (transF k m (iterDefault emp mk cfg sp f)))) := by
   unfold project projectRaw
-  have h1 : (!f.isEmpty && (f.filter (fun x => !emp x.2)).isEmpty) = false := by
-    cases hX : (!f.isEmpty && (f.filter (fun x => !emp x.2)).isEmpty) with
-    | false => rfl
-    | true => unfold noStop at hn; rw [hX] at hn; cases hn
   have h2 : decide (k * 0 + m > k * 1 + m) = false := by
     simp only [decide_eq_false_iff_not]; omega
-  rw [h1]
   simp only [Bool.false_eq_true, if_false, h2, hok, Bool.not_true]
   rfl
 
 /-- order-reversing transform -/
-theorem project_rev (emp wemp : π → Bool) (mk : π) (cfg : Cfg) {k : Int} (hk : k < 0) (m : Int)
-    (iv : Option (Int × Int)) (os oe : Option Int) {f : Fib Int π} (hs : Sorted f) (hn : noStop emp f = true)
-    (hw : ∀ x ∈ f, wemp x.2 = emp x.2) :
-    project emp wemp mk cfg k m iv none os oe f = .ok (projectSpec emp k m iv os oe f) := by
-  rw [project_unfold_rev emp wemp mk cfg hk m iv os oe hn, revInner_eq, occ_congr hw,
+theorem project_rev (emp : π → Bool) (mk : π) (cfg : Cfg) {k : Int} (hk : k < 0) (m : Int)
+    (iv : Option (Int × Int)) (os oe : Option Int) {f : Fib Int π} (hs : Sorted f) :
+    project emp mk cfg k m iv none os oe f = .ok (projectSpec emp k m iv os oe f) := by
+  rw [project_unfold_rev emp mk cfg hk m iv os oe f, revInner_eq,
     pipeline_eq_nf emp k m iv os oe (transF_sorted_neg hk m (occ_sorted emp hs)), nf_reverse,
     projectSpec_eq_nf, if_pos hk]
 
@@ -790,10 +775,10 @@ theorem iterDefaultSpec_C (emp : π → Bool) (mk : π) (cfg : Cfg) (hf : cfg.fm
   unfold iterDefaultSpec occ; rw [hf]
 
 /-- order-preserving transform, compressed rank, no shortcut -/
-theorem project_fwd_C (emp wemp : π → Bool) (mk : π) (cfg : Cfg) (hf : cfg.fmt = .C) {k : Int} (hk : 0 < k) (m : Int)
-    (iv : Option (Int × Int)) (os oe : Option Int) {f : Fib Int π} (hs : Sorted f) (hn : noStop emp f = true) :
-    project emp wemp mk cfg k m iv none os oe f = .ok (projectSpec emp k m iv os oe f) := by
-  rw [project_unfold_fwd emp wemp mk cfg hk m iv none os oe hn rfl, iterDefault_C emp mk cfg hf,
+theorem project_fwd_C (emp : π → Bool) (mk : π) (cfg : Cfg) (hf : cfg.fmt = .C) {k : Int} (hk : 0 < k) (m : Int)
+    (iv : Option (Int × Int)) (os oe : Option Int) {f : Fib Int π} (hs : Sorted f) :
+    project emp mk cfg k m iv none os oe f = .ok (projectSpec emp k m iv os oe f) := by
+  rw [project_unfold_fwd emp mk cfg hk m iv none os oe rfl, iterDefault_C emp mk cfg hf,
     iterDefaultSpec_C emp mk cfg hf,
     pipeline_eq_nf emp k m iv os oe (transF_sorted_pos hk m (occ_sorted emp hs)),
     projectSpec_eq_nf, if_neg (by omega)]
@@ -807,12 +792,12 @@ theorem mem_take_le {f : Fib Int π} (hs : Sorted f) {n : Nat} {y : Int × π} (
   · simp at h; subst h; exact Int.le_refl _
 
 /-- order-preserving transform, compressed rank, valid shortcut -/
-theorem project_fwd_C_sp (emp wemp : π → Bool) (mk : π) (cfg : Cfg) (hf : cfg.fmt = .C) {k : Int} (hk : 0 < k) (m : Int)
-    (iv : Option (Int × Int)) (sp : Nat) (os oe : Option Int) {f : Fib Int π} (hs : Sorted f) (hn : noStop emp f = true)
+theorem project_fwd_C_sp (emp : π → Bool) (mk : π) (cfg : Cfg) (hf : cfg.fmt = .C) {k : Int} (hk : 0 < k) (m : Int)
+    (iv : Option (Int × Int)) (sp : Nat) (os oe : Option Int) {f : Fib Int π} (hs : Sorted f)
     (hok : projStartOk iv (some sp) f = true) (hv : projValidStart emp k m iv sp f = true) :
-    project emp wemp mk cfg k m iv (some sp) os oe f = .ok (projectSpec emp k m iv os oe f) := by
+    project emp mk cfg k m iv (some sp) os oe f = .ok (projectSpec emp k m iv os oe f) := by
   have hw := withPos_sorted hs
-  rw [project_unfold_fwd emp wemp mk cfg hk m iv (some sp) os oe hn hok]
+  rw [project_unfold_fwd emp mk cfg hk m iv (some sp) os oe hok]
   -- the traversed sequence: the non-empty elements from position `sp`
   have hsrc : iterDefault emp mk cfg (some sp) f = stored (((withPos f).drop sp).filter (fun x => !emp x.2.2)) := by
     unfold iterDefault iterRange
@@ -872,12 +857,12 @@ theorem project_fwd_C_sp (emp wemp : π → Bool) (mk : π) (cfg : Cfg) (hf : cf
   rw [hpre, List.nil_append]
 
 /-- order-preserving transform, uncompressed rank whose content lies within its active range -/
-theorem project_fwd_U (emp wemp : π → Bool) (mk : π) (hmk : emp mk = true) (cfg : Cfg) (hf : cfg.fmt = .U)
+theorem project_fwd_U (emp : π → Bool) (mk : π) (hmk : emp mk = true) (cfg : Cfg) (hf : cfg.fmt = .U)
     {k : Int} (hk : 0 < k) (m : Int) (iv : Option (Int × Int)) (sp : Option Nat) (os oe : Option Int)
-    {f : Fib Int π} (hs : Sorted f) (hn : noStop emp f = true) (hok : projStartOk iv sp f = true)
+    {f : Fib Int π} (hs : Sorted f) (hok : projStartOk iv sp f = true)
     (hin : withinActive emp cfg f = true) :
-    project emp wemp mk cfg k m iv sp os oe f = .ok (projectSpec emp k m iv os oe f) := by
-  rw [project_unfold_fwd emp wemp mk cfg hk m iv sp os oe hn hok, iterDefault_U emp mk cfg hf hs sp]
+    project emp mk cfg k m iv sp os oe f = .ok (projectSpec emp k m iv os oe f) := by
+  rw [project_unfold_fwd emp mk cfg hk m iv sp os oe hok, iterDefault_U emp mk cfg hf hs sp]
   have hD : iterDefaultSpec emp mk cfg f = shapeSpec mk f (pyRange (getActive cfg f).1 (getActive cfg f).2 1) := by
     unfold iterDefaultSpec; rw [hf]
   have hDs : Sorted (shapeSpec mk f (pyRange (getActive cfg f).1 (getActive cfg f).2 1)) :=
